@@ -1,6 +1,7 @@
 package main
 
 import (
+	"regexp"
 	"encoding/json"
 	"flag"
 	"fmt"
@@ -315,7 +316,7 @@ func main() {
 					shapeS = append(shapeS, fmt.Sprintf("%s=%d", nd.Name, nd.Shape))
 				}
 			}
-			key := v.Label + "|" + v.Known + "|" + v.Detail
+			key := v.Label + "|" + v.Known + "|" + digitsRe.ReplaceAllString(v.Detail, "#")
 			seen[key]++
 			vr := ViolationReport{Label: v.Label, Detail: v.Detail, Shape: shape, Stack: v.Stack, Known: v.Known, Model: map[string]string{}}
 			for _, nd := range v.State.nondet {
@@ -358,6 +359,8 @@ func main() {
 	}
 	os.Exit(exit)
 }
+
+var digitsRe = regexp.MustCompile(`[0-9]+`)
 
 func statusName(s Status) string {
 	switch s {
